@@ -220,6 +220,14 @@ theorem compileExprH_ext (env : CEnv) : ∀ (e : CExpr) (st : HSt) (ce : CE) (st
       injection h with h; injection h with _ h; subst h
       exact (chk_namesSub st1 _ [] false).ext.trans
         (Ext.push (chk st1 _ [] false).2.pending _ (List.Subset.refl _) rfl rfl rfl)
+  | .seqexpr name exts args params val, st, ce, st', h => by
+      rw [compileExprH] at h
+      obtain ⟨⟨cargs, st1⟩, h1, h⟩ := bind_ok h
+      obtain ⟨⟨cv, st2⟩, h2, h⟩ := bind_ok h
+      refine (compileArgsH_ext env args _ _ _ _ h1).trans ((compileExprH_ext env val _ _ _ h2).trans ?_)
+      simp only at h
+      injection h with h; injection h with _ h; subst h
+      exact Ext.push _ _ (popPending_rest_subset _ _) rfl rfl rfl
   | .reg n k t, st, ce, st', h => by
       simp only [compileExprH] at h
       obtain ⟨r, _, h⟩ := bind_ok h
